@@ -84,6 +84,7 @@ void run_C17(vh::Ctx& c) {
     for (int kind = 0; kind < 3; kind++) {
       std::string what;
       std::vector<double> x;
+      double req_a = 0, req_b = 0;
       if (kind == 0) {  // linear
         double a = r.normal() * std::pow(10.0, r.range(-10, 10)), w = r.logu(1e-10, 1e10) * (std::fabs(a) > 0 ? std::max(1.0, std::fabs(a) * 1e-6) : 1.0);
         if (r.coin(0.2)) a = 0;
@@ -91,6 +92,7 @@ void run_C17(vh::Ctx& c) {
         double b = a + w;
         what = vh::fmt("linear grid nx=%u [%.17g,%.17g]", nx, a, b);
         c.desc(what);
+        req_a = a; req_b = b;
         g.Set_xrange(a, b, r.coin() ? "linear" : "Lin");
         x = g.Get_xrange();
         if (x.size() != nx) { c.violation("C17:grid:wrong-node-count", what); continue; }
@@ -101,6 +103,7 @@ void run_C17(vh::Ctx& c) {
         if (r.coin(0.2)) { a = 1; b = 1000; }
         what = vh::fmt("log grid nx=%u [%.17g,%.17g]", nx, a, b);
         c.desc(what);
+        req_a = a; req_b = b;
         g.Set_xrange(a, b, r.coin() ? "log" : "Log");
         x = g.Get_xrange();
         if (x.size() != nx) { c.violation("C17:grid:wrong-node-count", what); continue; }
@@ -141,6 +144,18 @@ void run_C17(vh::Ctx& c) {
       }
       c.nontrivial(vh::fnv_d(x.data(), x.size(), kind));
       sweep(c, r, g, x, what, per);
+      if (kind < 2) {
+        // the lookup clause is stated for the REQUESTED range: "for a<=x<=b ... (the last interval for x=b)".
+        // A grid whose end nodes are only images of a and b under rounding (exp(log b) != b) rejects them.
+        for (int endp = 0; endp < 2; endp++) {
+          double q = endp ? req_b : req_a;
+          c.eval(); c.count("lookup.requested_end_points");
+          unsigned i = 0; bool threw = false;
+          try { i = g.Get_i(q); } catch (std::exception&) { threw = true; }
+          if (threw) c.violation(vh::fmt("C17:lookup:requested-%s-rejected", endp ? "upper-end" : "lower-end"), what + vh::fmt(" Get_i(%.17g) threw although it is the requested %s end; the %s node is %.17g", q, endp ? "upper" : "lower", endp ? "last" : "first", endp ? x.back() : x.front()));
+          else if (!(i <= nx - 2) || !(x[i] <= q && q <= x[i + 1]) || (endp && i != nx - 2 && x[nx - 2] < q)) c.violation("C17:lookup:not-bracketing", what + vh::fmt(" Get_i(requested end %.17g)=%u", q, i));
+        }
+      }
       if (nx > 300) for (int m = 0; m < 400; m++) query(c, g, x, x.front() + (x.back() - x.front()) * r.u01(), what);
       if (idx < 3) c.sample(what);
     }
